@@ -329,7 +329,7 @@ def zero_result_of_empty_request(ctx, P):
                 n += 1
                 dom = dom or b.dominators()
                 lens = set(x for x, t2 in b.switches() if has_origin(b.switch_origins(x), r'^param:2$') and has_origin(b.switch_origins(x), r'^len$|call:.*(::len|::is_empty)$|op:PtrMetadata'))
-                lens &= b.reach_from([i])
+                # (a test in front of the pull counts as well: `if into.is_empty() { return Ok(0) }` at the top of the function)
                 bad = [x for x in changes if not (lens & set(dom.get(x, ())))]
                 ctx.check('%s:S09-8:zero-of-empty-request:%s' % (P, p), 'R-dom',
                           '%s changes its stage on a 0 result of the inner read only behind a test of the length of the caller\'s buffer' % p[1:].split(' as ')[0].split('::')[-1].split('<')[0],
